@@ -135,6 +135,7 @@ pub fn run_check(id: &str, tier: &str) -> i32 {
         "C08" => c08(tier, thorough),
         "C10" => c10(tier, thorough),
         "C15" => c15(tier, thorough),
+        "C06" => c06(tier, thorough),
         _ => {
             eprintln!("unknown check {}", id);
             2
@@ -387,6 +388,27 @@ fn c15(tier: &str, thorough: bool) -> i32 {
     ctx.finish(states, trans)
 }
 
+fn c06(tier: &str, thorough: bool) -> i32 {
+    let ctx = Ctx::new("C06", tier, level_mc(), "e3", &["array", "refusal"]);
+    ctx.assume("the byte-array model accepts any legal short count for read/write (1..=min(n, remaining)) and applies the count the call reported");
+    ctx.assume("build profile has debug assertions and overflow checks on, so arithmetic overflow in seek is a panic");
+    ctx.set_rule("all call sequences up to the depth over the handle call alphabet (read, fill_buf/consume, write, seek Start/End/Current incl. i64/u64 extremes, set_len, flush, position, len) for every configuration (max_buffer_size x version x initial length); every call compared with Vec<u8>+cursor, then a fresh handle reads everything back; a state is one executed sequence, distinct by construction");
+    let mut seqs = 0u64;
+    let mut calls = 0u64;
+    let mut add = |st: crate::e3::E3Stats, label: &str, ctx: &Ctx| {
+        ctx.note(format!("{}: configs={} sequences={} calls={}", label, st.configs, st.sequences, st.calls));
+        seqs += st.sequences;
+        calls += st.calls;
+    };
+    if !thorough {
+        add(crate::e3::explore(&ctx, &[3, 4], &[0, 1500, 1 << 20], &[0, 1025, 5000], 3, false), "depth 3, 38 calls", &ctx);
+    } else {
+        add(crate::e3::explore(&ctx, &[3, 4], &[0, 1, 1023, 1024, 1025, 1500, 4096, 5000, 1 << 20], &[0, 10, 1024, 1025, 3000, 4096, 5000, 9000], 3, true), "depth 3, 67 calls", &ctx);
+        add(crate::e3::explore(&ctx, &[3, 4], &[1024, 1500, 1 << 20], &[0, 1025, 5000], 4, false), "depth 4, 38 calls", &ctx);
+    }
+    ctx.finish(seqs, calls)
+}
+
 pub fn replay(path: &str) -> i32 {
     let text = match std::fs::read_to_string(path) {
         Ok(t) => t,
@@ -432,6 +454,33 @@ pub fn replay(path: &str) -> i32 {
                     println!("VIOLATION-REPLAYED class={} {}", v.class, v.msg);
                 }
                 1
+            }
+        }
+        "handle" => {
+            let c: crate::e3::HandleCase = match serde_json::from_value(case["handle"].clone()) {
+                Ok(c) => c,
+                Err(e) => {
+                    eprintln!("bad handle case: {}", e);
+                    return 2;
+                }
+            };
+            let base = match crate::e3::make_base(c.version, c.init_len) {
+                Ok(b) => b,
+                Err(e) => {
+                    eprintln!("{}", e);
+                    return 2;
+                }
+            };
+            println!("replaying handle case {:?}", c);
+            match crate::e3::run_case(&base, &c) {
+                None => {
+                    println!("no violation on replay");
+                    0
+                }
+                Some((class, msg)) => {
+                    println!("VIOLATION-REPLAYED class={} {}", class, msg);
+                    1
+                }
             }
         }
         "cycle" => {
